@@ -8,6 +8,11 @@ func flatten(sc *Scn) *Scn {
 	if root.Kind != "flow" {
 		return nil
 	}
+	for _, n := range sc.Nodes {
+		if len(n.LateConns) > 0 {
+			return nil // tables that change between runs are compared with the model only
+		}
+	}
 	// every node must be a member of at most one flow
 	owner := map[int]int{}
 	nested := false
